@@ -791,7 +791,7 @@ pub fn check_case(l: &mut Local, case: &Case) {
         Case::LegacySampleSet { samples, sense } => {
             l.outcome(&("legacy-sample-set", samples.len(), sense));
             let mut inner = Local::new();
-            super::c15::check_case(&mut inner, &super::c15::Case::Best { samples: samples.clone(), sense: *sense, legacy: true, by_value: false });
+            super::c15::check_case(&mut inner, &super::c15::Case::Best { samples: samples.iter().map(|s| (crate::refmodel::msg::X(s.0), s.1)).collect(), sense: *sense, legacy: true, by_value: false, removed_how: 0 });
             l.evaluations += inner.evaluations;
             l.transitions += inner.transitions;
             l.nontrivial += inner.nontrivial;
